@@ -31,7 +31,7 @@ ASSUMPTIONS = [
     "the order axioms are demanded",
     "int() = truncation toward zero; float() = correctly rounded nearest double of the exact value",
 ]
-REQUIRED_COUNTERS = ["M-pref.+", "M-pref.*", "M-pref.r-", "M-pref.cmp<", "M-pref.scale", "M-pref.int", "M-pref.float", "driver.axioms", "driver.plain-number-ops"]
+REQUIRED_COUNTERS = ["M-pref.+", "M-pref.*", "M-pref.r-", "M-pref.cmp<", "M-pref.scale", "M-pref.int", "M-pref.float", "driver.axioms", "driver.plain-number-ops", "history.used-before"]
 MIN_EVALS = 2000
 MIN_NONTRIVIAL = 1000
 
@@ -63,11 +63,11 @@ def call(rec, sig_prefix, what, case, f):
         return False, None
 
 
-def judge_pair(rec, a, b, full=True, derived=True):
+def judge_pair(rec, a, b, full=True, derived=True, case=None):
     """All operators on one ordered pair."""
     import operator as op
 
-    case = {"kind": "pair", "a": mpref.case_of(a), "b": mpref.case_of(b)}
+    case = case or {"kind": "pair", "a": mpref.case_of(a), "b": mpref.case_of(b)}
     ea, eb = mpref.exact(a), mpref.exact(b)
     da, db = mpref._desc(a), mpref._desc(b)
 
@@ -140,6 +140,32 @@ def judge_pair(rec, a, b, full=True, derived=True):
                               case=case)
 
 
+def used_before(rec, a, light=False):
+    """An operand that has been USED (hashed, converted, compared, named) before it enters an operation: every result must be
+    indistinguishable from the same value built afresh - by ==, hash, int(), float() and the order relations."""
+    import copy as _copy
+    from hdl21.prefix import Prefixed as _P
+
+    for use in (hash, float, int, str, repr, lambda x: x < 1, lambda x: x == x, lambda x: x.scale()):
+        try:
+            use(a)
+        except Exception:
+            pass
+    da = mpref._desc(a)
+    for name, f in (("neg", lambda x: -x), ("abs", abs), ("scale", lambda x: x.scale()), ("plus-zero", lambda x: x + 0), ("times-one", lambda x: x * 1),
+                    ("double-neg", lambda x: -(-x)), ("copy", _copy.copy), ("deepcopy", _copy.deepcopy), ("model_copy", lambda x: x.model_copy()),
+                    ("minus-self", lambda x: x - x), ("times-minus-one", lambda x: x * -1)):
+        case = {"kind": "used", "a": mpref.case_of(a), "op": name}
+        ok, r = call(rec, f"arith-raises:{name}", f"{name}({da}) after use", case, lambda f=f: f(a))
+        if not ok or not isinstance(r, _P):
+            continue
+        rec.count("history.used-before")
+        fresh = mk(r.number, r.prefix)
+        if light and name in ("plus-zero", "times-one", "deepcopy", "minus-self", "times-minus-one"):
+            continue
+        judge_pair(rec, r, fresh, full=True, derived=False, case=case)
+
+
 def Prefix_UNIT():
     from hdl21.prefix import Prefix
 
@@ -193,6 +219,12 @@ def run(ctx, rec):
                      sample={"a": f"{ma}*{pa.name}", "b": f"{mb}*{pb.name}"} if seen % 997 == 0 else None)
             seen += 1
             judge_pair(rec, a, b, derived=(not ctx.quick or seen % 3 == 0))
+        # operands that were used before they are operated on
+        if ctx.quick:
+            used_before(rec, mk(rng.choice(fixed), pa) if seen % 2 else mk(rand_decimal(rng), pb), light=True)
+        else:
+            used_before(rec, mk(rng.choice(fixed), pa))
+            used_before(rec, mk(rand_decimal(rng), pb))
         # every rescaling of one value per pair (21 targets)
         a = mk(rng.choice(fixed), pa)
         for pt in prefixes:
@@ -262,6 +294,9 @@ def replay(ctx, rec, case):
         a = mpref.uncase(case["a"])
         rec.case(key=case)
         judge_pair(rec, a, a)
+    elif k == "used":
+        rec.case(key=case)
+        used_before(rec, mpref.uncase(case["a"]))
     elif k == "scale":
         a = mpref.uncase(case["a"])
         rec.case(key=case)
